@@ -95,6 +95,8 @@ def gen_multi_buffer(rng, mods):
         b.add('def local(zz):')
         b.add('    return zz')
         b.add('local(local(1))', [('get_references', 'loca', None), ('get_references', 'loca', {'scope': 'file'})])
+        b.add('%s.func(1)' % a, [('get_references', '.fun', None), ('get_references', '.fun', {'scope': 'file'})])
+        b.add('%s.Klass().method' % c, [('get_references', ').meth', {'scope': 'file'})])
 
     def arith():
         b.add('def calc(a, b):')
@@ -106,7 +108,7 @@ def gen_multi_buffer(rng, mods):
         b.add('mixed = calc(1, 2) or 7')
         b.add('mixed', [('infer', 'mixe', None), ('goto', 'mixe', None)])
 
-    parts = [cond_call, ternary_inst, multi_def, multi_inherit, or_union, star_overlap, alt, flow, refs, arith, arith]
+    parts = [cond_call, ternary_inst, multi_def, multi_inherit, or_union, star_overlap, alt, flow, flow, refs, refs, arith, arith]
     rng.shuffle(parts)
     for p in parts[:rng.randint(3, 5)]:
         p()
@@ -188,6 +190,11 @@ def gen_case(seed, tier, i):
     faults = [{'pos': rng.randrange(len(sched)), 'frac': rng.random(),
                'exc': rng.choice(['RuntimeError', 'ValueError', 'KeyError', 'AttributeError', 'OSError'])}
               for _ in range(nf)]
+    # queries that flip temporary switches while they run are the interesting ones to fail
+    ref_pos = [k for k, idx in enumerate(sched) if probes[idx]['m'] in ('get_references', 'rename_diff', 'search')]
+    if ref_pos and rng.random() < 0.7:
+        faults[0]['pos'] = rng.choice(ref_pos)
+        faults[0]['frac'] = rng.choice([0.0, 0.0, rng.random()])
     return {'id': 'c16-%d' % i, 'init': init, 'text': text, 'probes': probes, 'configs': configs,
             'schedule': sched, 'sched_config': rng.randrange(len(configs)), 'faults': faults,
             'pathed': rng.random() < 0.5}
